@@ -319,3 +319,128 @@ pub fn c07(rng: &mut impl Rng, len: usize) -> Vec<Value> {
     }
     evs
 }
+
+/// C03: one or two circuit breakers on a resource, optionally an isolation rule so that probes get
+/// blocked by another family.
+pub fn c03(rng: &mut impl Rng, len: usize) -> Vec<Value> {
+    let t0 = rng.gen_range(0..20000u64);
+    let mut rules = Vec::new();
+    let nb = if rng.gen_range(0..3) == 0 { 2 } else { 1 };
+    let mut align = 1u64;
+    let mut retry0 = 1000;
+    let mut win0 = 1000;
+    let mut maxrt0 = 50;
+    for k in 0..nb {
+        let strat = *pick(rng, &["slow", "eratio", "ecount"]);
+        let iv = *pick(rng, &[1000u64, 2000, 3000, 500, 700, 1500]);
+        let buckets = *pick(rng, &[0u64, 1, 2, 3, 4, 5]);
+        let retry = *pick(rng, &[300u64, 500, 1000, 2500, 5000]);
+        let maxrt = *pick(rng, &[0u64, 10, 50, 200]);
+        let thr = if strat == "ecount" {
+            json!([rng.gen_range(0..=3u64), 1])
+        } else {
+            pick(rng, &[json!([0, 1]), json!([1, 4]), json!([1, 2]), json!([3, 4]), json!([1, 1]), json!([1, 3])]).clone()
+        };
+        if k == 0 {
+            retry0 = retry;
+            win0 = iv;
+            maxrt0 = maxrt;
+        }
+        align = crate::util::lcm(align, iv);
+        rules.push(json!({"id": format!("c{}", k + 1), "res": "r1", "strat": strat, "retry": retry,
+            "minreq": rng.gen_range(0..=4u64), "I": iv, "nb": buckets, "maxrt": maxrt, "thr": thr}));
+    }
+    let mut evs = vec![json!({"e": "reset", "t": t0, "obs": 1, "align": align,
+        "cfg": {"nt": 20, "It": 10000, "n": 2, "I": 1000}})];
+    let mut t = t0;
+    if rng.gen_range(0..3) == 0 {
+        evs.push(json!({"e": "load", "fam": "iso", "op": "all", "t": t,
+            "rules": [{"id": "i1", "res": "r1", "thr": rng.gen_range(1..=2u64)}]}));
+    }
+    evs.push(json!({"e": "load", "fam": "cb", "op": "all", "t": t, "rules": rules}));
+    let mut open: Vec<u64> = Vec::new();
+    let mut id = 0;
+    for _ in 0..len {
+        t += match rng.gen_range(0..12) {
+            0..=2 => 0,
+            3 => 1,
+            4 => maxrt0,
+            5 => maxrt0 + 1,
+            6 => retry0,
+            7 => retry0.saturating_sub(1),
+            8 => win0 / 2,
+            9 => win0,
+            10 => rng.gen_range(0..=2 * win0),
+            _ => rng.gen_range(0..=100),
+        };
+        if !open.is_empty() && rng.gen_range(0..10) < 5 {
+            let i = rng.gen_range(0..open.len());
+            evs.push(json!({"e": "exit", "id": open.remove(i), "t": t, "err": rng.gen_bool(0.5)}));
+        } else if rng.gen_range(0..10) == 0 {
+            evs.push(json!({"e": "adv", "t": t}));
+        } else {
+            id += 1;
+            open.push(id);
+            evs.push(json!({"e": "enter", "id": id, "res": "r1", "n": 1, "t": t}));
+        }
+    }
+    evs
+}
+
+/// C09: system rules; observed QPS / concurrency / RT come from real inbound traffic, load and
+/// CPU are injected (dyadic values, exact in f32 and f64).
+pub fn c09(rng: &mut impl Rng, len: usize) -> Vec<Value> {
+    let t0 = rng.gen_range(0..20000u64);
+    let mut evs = vec![json!({"e": "reset", "t": t0, "obs": 2, "cfg": {"nt": 20, "It": 10000, "n": 2, "I": 1000}})];
+    let mut t = t0;
+    let dy = [[0u64, 1], [1, 4], [1, 2], [3, 4], [1, 1], [3, 2], [5, 1], [50, 1], [201, 2]];
+    let mut rules = Vec::new();
+    for k in 0..rng.gen_range(1..=3) {
+        let metric = *pick(rng, &["load", "rt", "conc", "qps", "cpu"]);
+        let thr = match metric {
+            "load" => json!(pick(rng, &[[0u64, 1], [1, 4], [1, 2], [3, 4], [1, 1], [3, 2]])),
+            "cpu" => json!(pick(rng, &[[0u64, 1], [1, 2], [5, 1], [50, 1], [100, 1], [201, 2]])),
+            "rt" => json!([*pick(rng, &[0u64, 1, 5, 10, 50, 100, 101]), *pick(rng, &[1u64, 2])]),
+            "conc" => json!([rng.gen_range(0..=4u64), 1]),
+            _ => json!([rng.gen_range(0..=6u64), *pick(rng, &[1u64, 2])]),
+        };
+        rules.push(json!({"id": format!("s{}", k + 1), "metric": metric, "thr": thr,
+            "strat": if rng.gen_bool(0.5) { "bbr" } else { "none" }}));
+    }
+    evs.push(json!({"e": "load", "fam": "sys", "op": "all", "t": t, "rules": rules}));
+    let mut open: Vec<u64> = Vec::new();
+    let mut id = 0;
+    for _ in 0..len {
+        t += match rng.gen_range(0..12) {
+            0..=3 => 0,
+            4 => 1,
+            5 => 5,
+            6 => 50,
+            7 => 100,
+            8 => 500 - (t % 500),
+            9 => 500,
+            10 => rng.gen_range(0..=1000),
+            _ => rng.gen_range(0..=3000),
+        };
+        match rng.gen_range(0..20) {
+            0 | 1 => evs.push(json!({"e": "sysload", "t": t, "v": pick(rng, &dy)})),
+            2 | 3 => evs.push(json!({"e": "syscpu", "t": t, "v": pick(rng, &dy)})),
+            4 => evs.push(json!({"e": "adv", "t": t})),
+            5..=11 if !open.is_empty() => {
+                let i = rng.gen_range(0..open.len());
+                evs.push(json!({"e": "exit", "id": open.remove(i), "t": t}));
+            }
+            _ => {
+                id += 1;
+                open.push(id);
+                let res = *pick(rng, &["r1", "r2"]);
+                evs.push(json!({"e": "enter", "id": id, "res": res, "n": rng.gen_range(1..=2u64), "in": rng.gen_range(0..5) != 0, "t": t}));
+            }
+        }
+    }
+    for i in open {
+        t += rng.gen_range(0..100);
+        evs.push(json!({"e": "exit", "id": i, "t": t}));
+    }
+    evs
+}
